@@ -144,7 +144,7 @@ def e2e_monitor(case, il, sl):
             return ("declared dead after %d ms of silence, 2h = %d ms" % (t, 2 * h), "c17-late")
         if "MissedServerHeartbeats" not in close:
             return ("silent server: close reports %r" % close, "c17-kind")
-    if mode == "stall-io":
+    if mode in ("stall-io", "stall-pass"):
         if death != ["none"]:
             return ("the I/O thread was stalled for 2.3 h while the server kept sending; when it resumed it declared the server dead (%s) although the server's bytes were waiting in the socket" % close, "c17-false-death")
         return None
@@ -174,7 +174,8 @@ def gen_e2e(tier, seed):
              # a connection_timeout is about the handshake only: afterwards silence is judged by the heartbeats alone
              Case("e14", ["run 0 0 silent 1500 timeout=300"], {"keep_prefix": 0}), Case("e15", ["run 3 3 silent 1500 timeout=300"], {"keep_prefix": 0}),
              # silence between Tune and OpenOk; an I/O thread stalled while the server keeps sending
-             Case("e16", ["run 1 1 silent 500 openok-delay=60000"], {"keep_prefix": 0}), Case("e17", ["run 1 1 stall-io 4200"], {"keep_prefix": 0})]
+             Case("e16", ["run 1 1 silent 500 openok-delay=60000"], {"keep_prefix": 0}), Case("e17", ["run 1 1 stall-io 4200"], {"keep_prefix": 0}),
+             Case("e18", ["run 1 1 stall-pass 4200"], {"keep_prefix": 0})]
     if tier != "quick":
         cases += [Case("e5", ["run 2 2 silent 6000"], {"keep_prefix": 0}), Case("e6", ["run 2 3 chatty 12500"], {"keep_prefix": 0}),
                   Case("e7", ["run 1 1 chatty 6500"], {"keep_prefix": 0}), Case("e9", ["run 2 2 dribble 9000"], {"keep_prefix": 0})]
